@@ -308,6 +308,7 @@ func c22Read(s *cryptobyte.String, items []*rc.Item, path string) error {
 			}
 		case rc.OpLP8, rc.OpLP16, rc.OpLP24, rc.OpLP32:
 			child := cryptobyte.String("stale child")
+			before := *s
 			ok := false
 			switch it.Kind {
 			case rc.OpLP8:
@@ -325,6 +326,21 @@ func c22Read(s *cryptobyte.String, items []*rc.Item, path string) error {
 			if !ok {
 				return fmt.Errorf("%s length-prefixed read failed", at)
 			}
+			// the same read with the output aliased to the receiver (descending in place)
+			if it.Kind != rc.OpLP32 {
+				al := before
+				switch it.Kind {
+				case rc.OpLP8:
+					ok = al.ReadUint8LengthPrefixed(&al)
+				case rc.OpLP16:
+					ok = al.ReadUint16LengthPrefixed(&al)
+				case rc.OpLP24:
+					ok = al.ReadUint24LengthPrefixed(&al)
+				}
+				if !ok || !bytes.Equal(al, child) {
+					return fmt.Errorf("%s aliased length-prefixed read s.Read(&s): ok=%v, got %d bytes, a separate child gets %d", at, ok, len(al), len(child))
+				}
+			}
 			if err := c22Read(&child, it.Kids, at); err != nil {
 				return err
 			}
@@ -333,6 +349,7 @@ func c22Read(s *cryptobyte.String, items []*rc.Item, path string) error {
 			}
 		case rc.OpASN1:
 			child := cryptobyte.String("stale child")
+			before := *s
 			tag := cbasn1.Tag(it.Tag)
 			switch it.Read {
 			case 0:
@@ -356,6 +373,33 @@ func c22Read(s *cryptobyte.String, items []*rc.Item, path string) error {
 				var present bool
 				if !s.ReadOptionalASN1(&child, &present, tag) || !present {
 					return fmt.Errorf("%s ReadOptionalASN1(tag %#x) failed/absent", at, it.Tag)
+				}
+			}
+			{
+				// every ASN.1 read with the output aliased to the receiver
+				al := before
+				if !al.ReadASN1(&al, tag) || !bytes.Equal(al, child) {
+					return fmt.Errorf("%s aliased s.ReadASN1(&s, tag) left %d bytes in s, a separate child gets %d", at, len(al), len(child))
+				}
+				al = before
+				var gt cbasn1.Tag
+				if !al.ReadAnyASN1(&al, &gt) || !bytes.Equal(al, child) || gt != tag {
+					return fmt.Errorf("%s aliased s.ReadAnyASN1(&s, _) left %d bytes in s, a separate child gets %d", at, len(al), len(child))
+				}
+				al = before
+				var pres bool
+				if !al.ReadOptionalASN1(&al, &pres, tag) || !pres || !bytes.Equal(al, child) {
+					return fmt.Errorf("%s aliased s.ReadOptionalASN1(&s, _, tag) left %d bytes in s, a separate child gets %d", at, len(al), len(child))
+				}
+				al = before
+				el := before
+				var sep cryptobyte.String
+				if !el.ReadASN1Element(&sep, tag) || !al.ReadASN1Element(&al, tag) || !bytes.Equal(al, sep) {
+					return fmt.Errorf("%s aliased s.ReadASN1Element(&s, tag) differs from a separate out", at)
+				}
+				al = before
+				if !al.ReadAnyASN1Element(&al, &gt) || !bytes.Equal(al, sep) {
+					return fmt.Errorf("%s aliased s.ReadAnyASN1Element(&s, _) differs from a separate out", at)
 				}
 			}
 			if err := c22Read(&child, it.Kids, at); err != nil {
